@@ -314,3 +314,55 @@ Example clean_above_negotiated_limit5 :
   option_map (fun l => (pending5 l, held5 (st5 l), connected5 l)) (lrun5 (linit5 3 false) (above_limit5_history ++ [Fail5]))
   = Some ([R5Publish (mkPub5 Q1 3 3 3 None)], [], false).
 Proof. vm_compute. repeat split. Qed.
+
+(** ---- K-C02-v5-alias (known finding): the class predicate over a loop history.  Some TakeRequest5
+    of the history hands the state machine a CARRIED publish (preset id: it comes from a previous
+    clean()) whose topic alias exceeds the alias maximum in force ([s5_alias_max]: set by the CONNACK of
+    this connection, or left over from an earlier one): [outgoing_publish5] refuses it (InvalidAlias)
+    after [next_request5] has consumed it — the accepted, unacknowledged publish is dropped. *)
+Definition alias_refused5 (l : lstate5) : bool :=
+  take_enabled5 l &&
+  match next_request5 l with
+  | Some (R5Publish p, l1) =>
+      negb (q_pkid p =? 0) && match q_alias p with Some a => s5_alias_max (st5 l1) <? a | None => false end
+  | _ => false
+  end.
+
+Fixpoint k_alias5 (l : lstate5) (h : list lop5) : bool :=
+  match h with
+  | [] => false
+  | o :: r =>
+      (match o with TakeRequest5 => alias_refused5 l | _ => false end)
+      || match lnext5 l o with Some l' => k_alias5 l' r | None => false end
+  end.
+
+Definition k_alias5_witness_history : list lop5 :=
+  [Reconnect5 true None (Some 10); Yield5; UserSend5 (R5Publish (mkPub5 Q1 0 1 1 (Some 5)));
+   TakeRequest5; Yield5; Fail5; Reconnect5 true None (Some 3); Yield5; TakeRequest5].
+
+Example k_alias5_witness :
+  k_alias5 (linit5 2 false) k_alias5_witness_history = true /\
+  (* the same history with an alias the resumed connection allows is outside the class, and the publish is retransmitted *)
+  k_alias5 (linit5 2 false)
+    [Reconnect5 true None (Some 10); Yield5; UserSend5 (R5Publish (mkPub5 Q1 0 1 1 (Some 3)));
+     TakeRequest5; Yield5; Fail5; Reconnect5 true None (Some 3); Yield5; TakeRequest5] = false /\
+  (* a publish refused on its FIRST attempt (no id yet: never accepted) is outside the class *)
+  k_alias5 (linit5 2 false)
+    [Reconnect5 true None (Some 3); Yield5; UserSend5 (R5Publish (mkPub5 Q1 0 1 1 (Some 5))); TakeRequest5] = false /\
+  option_map (fun l => (pending5 l, held5 (st5 l), chan5 l, connected5 l)) (lrun5 (linit5 2 false) k_alias5_witness_history)
+  = Some ([], [], [], false).
+Proof. vm_compute. repeat split. Qed.
+
+(** in the class the request is consumed ([next_request5]) and the poll fails with InvalidAlias: the
+    loop that remains is [clean] of the loop WITHOUT that request *)
+Lemma alias_refused5_drops l : alias_refused5 l = true ->
+  exists p l1 a, next_request5 l = Some (R5Publish p, l1) /\ q_alias p = Some a /\
+    lstep5 l TakeRequest5 = Failed5 (loop_clean5 l1) (LE5State (E5InvalidAlias a (s5_alias_max (st5 l1)))).
+Proof.
+  unfold alias_refused5. intros H. apply andb_true_iff in H. destruct H as [Hte H].
+  destruct (next_request5 l) as [[r l1]|] eqn:En; [|discriminate]. destruct r as [p| | | | | | | | | | |]; try discriminate.
+  apply andb_true_iff in H. destruct H as [_ H]. destruct (q_alias p) as [a|] eqn:Ea; [|discriminate].
+  exists p, l1, a. split; [reflexivity|]. split; [exact Ea|].
+  unfold lstep5. cbn [lstep5_gen]. rewrite Hte, En. cbn [handle_outgoing_packet5]. unfold outgoing_publish5. rewrite Ea, H.
+  destruct l1; reflexivity.
+Qed.
